@@ -10,6 +10,7 @@ mod c07;
 mod c18;
 mod c16;
 mod c15;
+mod c11;
 pub mod filters;
 
 use std::io::Write;
@@ -42,6 +43,7 @@ fn main() {
         "C18" => c18::run(&mut ctx),
         "C16" => c16::run(&mut ctx),
         "C15" => c15::run(&mut ctx),
+        "C11" => c11::run(&mut ctx),
         other => {
             eprintln!("unknown property {}", other);
             std::process::exit(2);
